@@ -74,7 +74,7 @@ structure PortSt (E : Type) where
   enabled : Bool
   expr : Option E
   lastRead : Option Int            -- `_last_read_value` (`none` = unavailable)
-  drv : Option Int                 -- the driver's register (H1)
+  drv : Option Int                 -- the driver's register (H1); writing "unavailable" is register := none too
   evalQ : List View := []          -- `_eval_queue`: value snapshots (`push_eval`)
   ev : Ev := .idle
   wq : List (Option Int) := []     -- `_write_value_queue`
@@ -117,6 +117,7 @@ inductive Act (E : Type) where
   | apiWrite (p : PortId) (v : Option Int)
   | enable (p : PortId)
   | disable (p : PortId)
+  | hookDone (p : PortId)
   | setExpr (p : PortId) (e : E)
   | clearExpr (p : PortId)
 
@@ -252,6 +253,13 @@ def step? (cfg : Cfg E) (s : State E) : Act E → Option (State E)
   | .apiWrite p v =>
     if (s.port p).expr.isNone && (s.port p).enabled then some (s.setPort p fun P => { P with wq := P.wq ++ [v] })
     else none
+  | .hookDone _ =>
+    -- `await self.handle_enable()` / `handle_disable()` returns (the driver hook may stay suspended over any number of
+    -- passes and other actions): `BasePort.enable()` / `disable()` do nothing afterwards. MODELLED ORDER: `.enable p` /
+    -- `.disable p` are the part BEFORE that await — the `_enabled` flag is flipped AND the forced evaluations are
+    -- registered in one atomic stretch — which is what the proof of `converges` uses (a pass running while the hook is
+    -- suspended already sees the port enabled and serves the force). A hook that raises (flag reverted) is not modelled.
+    some s
   | .enable p =>
     if (s.port p).enabled then none else
     some { (s.setPort p fun P => { P with enabled := true }) with
@@ -312,6 +320,7 @@ inductive Op2 where
 
 inductive TExpr where
   | lit (k : Int)
+  | una                         -- the literal `unavailable`
   | port (q : PortId)
   | op2 (o : Op2) (a b : TExpr)
   | not (a : TExpr)
@@ -322,6 +331,7 @@ inductive TExpr where
 
 def TExpr.deps : TExpr → List PortId
   | .lit _ => []
+  | .una => []
   | .port q => [q]
   | .op2 _ a b => a.deps ++ b.deps
   | .not a => a.deps
@@ -346,6 +356,7 @@ def Op2.ap : Op2 → Int → Int → Int
 catch every evaluation error (also a disabled port). -/
 def TExpr.eval : TExpr → View → Res
   | .lit k, _ => .val k
+  | .una, _ => .unavail
   | .port q, v => match v q with
     | .dis => .error
     | .na => .unavail
